@@ -131,15 +131,35 @@ Theorem scan_literals_independent :
   forall src pend1 pend2, fst (compile_literals pol pend1 src) = fst (compile_literals pol pend2 src).
 Proof. intros pol H src p1 p2; unfold compile_literals; apply scan_independent_gen; [assumption|discriminate]. Qed.
 
-(* the residue exists under every policy: an input that ends inside a literal leaves its text behind *)
+(* without a <C_STRING><<EOF>> rule the residue exists: an input that ends inside a literal leaves its text behind *)
 Theorem eof_inside_literal_leaves_text :
-  forall pol c d, snd (compile_literals pol None [Quote; Ch c; Ch d]) = Some [c; d].
-Proof. intros [[|]] c d; reflexivity. Qed.
+  forall pol c d, eof_frees pol = false -> snd (compile_literals pol None [Quote; Ch c; Ch d]) = Some [c; d].
+Proof. intros [[|] e] c d H; simpl in H; subst e; reflexivity. Qed.
+
+(* with it nothing is ever left pending *)
+Lemma scan_leaves_nothing_gen :
+  forall pol, eof_frees pol = true ->
+  forall evs inlit pend, (inlit = false -> pend = None) -> snd (scan pol pend inlit evs) = None.
+Proof.
+  intros pol H evs; induction evs as [|e evs IH]; intros inlit pend Hp; simpl.
+  - destruct inlit; simpl; [rewrite H; reflexivity | apply Hp; reflexivity].
+  - destruct e as [|c|]; destruct inlit.
+    + specialize (IH false None (fun _ => eq_refl)). destruct (scan pol None false evs); simpl in *; assumption.
+    + apply IH; discriminate.
+    + apply IH; discriminate.
+    + apply IH; assumption.
+    + apply IH; reflexivity.
+    + apply IH; assumption.
+Qed.
+
+Theorem compile_leaves_nothing_pending :
+  forall pol, eof_frees pol = true -> forall src, snd (compile_literals pol None src) = None.
+Proof. intros pol H src; unfold compile_literals; apply scan_leaves_nothing_gen; auto. Qed.
 
 Theorem scan_alloc_necessary :
   forall pol, alloc_always pol = false ->
     fst (compile_literals pol (Some [1]) [Quote; Quote]) <> fst (compile_literals pol None [Quote; Quote]).
-Proof. intros [a] H; simpl in H; subst a; unfold compile_literals; simpl; discriminate. Qed.
+Proof. intros [a e] H; simpl in H; subst a; unfold compile_literals; simpl; discriminate. Qed.
 
 (* the history of seeded change C15-6: (a) the input ends inside a literal after E R  (b) a good source  (c) the same again *)
 Theorem guarded_allocation_observable :
@@ -147,35 +167,52 @@ Theorem guarded_allocation_observable :
   let after_a pol := snd (compile_literals pol None [Quote; Ch 69; Ch 82]) in
   fst (compile_literals guarded_scan (after_a guarded_scan) src) = [[69; 82; 104; 105]] /\
   fst (compile_literals guarded_scan (snd (compile_literals guarded_scan (after_a guarded_scan) src)) src) = [[104; 105]] /\
-  fst (compile_literals pinned_scan (after_a pinned_scan) src) = [[104; 105]].
+  fst (compile_literals pinned_scan (after_a pinned_scan) src) = [[104; 105]] /\
+  fst (compile_literals guarded_eof_scan (after_a guarded_eof_scan) src) = [[104; 105]].
 Proof. repeat split; reflexivity. Qed.
 
 (* ---- the process: histories of compiles, calls and host arithmetic ----------------------------- *)
 Lemma reinitialises_split :
-  forall fp sp, reinitialises fp sp = true -> fl_sub (tested fp) (cleared fp) = true /\ alloc_always sp = true.
-Proof. intros fp sp H; unfold reinitialises in H; apply andb_true_iff in H; exact H. Qed.
-
-Lemma gstep_obs_independent :
   forall fp sp, reinitialises fp sp = true ->
-  forall o p1 p2, fst (gstep fp sp p1 o) = fst (gstep fp sp p2 o).
+    fl_sub (tested fp) (cleared fp) = true /\ (alloc_always sp = true \/ eof_frees sp = true).
 Proof.
-  intros fp sp H o p1 p2; apply reinitialises_split in H; destruct H as [Hf Hs].
+  intros fp sp H; unfold reinitialises in H; apply andb_true_iff in H; destruct H as [H1 H2].
+  apply orb_true_iff in H2; auto.
+Qed.
+
+(* two process states are interchangeable: always under alloc_always; when no buffer is pending otherwise *)
+Definition alike (sp : scan_policy) (p1 p2 : process) : Prop :=
+  alloc_always sp = true \/ (eof_frees sp = true /\ strbuf p1 = None /\ strbuf p2 = None).
+
+Lemma gstep_alike :
+  forall fp sp, fl_sub (tested fp) (cleared fp) = true ->
+  forall o p1 p2, alike sp p1 p2 ->
+    fst (gstep fp sp p1 o) = fst (gstep fp sp p2 o) /\ alike sp (snd (gstep fp sp p1 o)) (snd (gstep fp sp p2 o)).
+Proof.
+  intros fp sp Hf o p1 p2 A.
   destruct o as [src folds|ss|r]; cbn [gstep].
-  - pose proof (scan_literals_independent sp Hs src (strbuf p1) (strbuf p2)) as E.
-    destruct (compile_literals sp (strbuf p1) src), (compile_literals sp (strbuf p2) src); simpl in *; subst; reflexivity.
+  - destruct A as [Ha|(He & N1 & N2)].
+    + pose proof (scan_literals_independent sp Ha src (strbuf p1) (strbuf p2)) as E.
+      destruct (compile_literals sp (strbuf p1) src), (compile_literals sp (strbuf p2) src); simpl in *; subst.
+      split; [reflexivity | left; assumption].
+    + rewrite N1, N2. pose proof (compile_leaves_nothing_pending sp He src) as L.
+      destruct (compile_literals sp None src) as [ls b]; simpl in *; subst b.
+      split; [reflexivity | right; auto].
   - pose proof (fp_outcomes_independent fp Hf ss (fpsw p1) (fpsw p2)) as E.
-    destruct (run_steps fp (fpsw p1) ss), (run_steps fp (fpsw p2) ss); simpl in *; subst; reflexivity.
-  - reflexivity.
+    destruct (run_steps fp (fpsw p1) ss), (run_steps fp (fpsw p2) ss); simpl in *; subst.
+    split; [reflexivity | exact A].
+  - simpl; split; [reflexivity | exact A].
 Qed.
 
 Theorem process_history_independent :
   forall fp sp, reinitialises fp sp = true ->
-  forall os p1 p2, fst (grun fp sp p1 os) = fst (grun fp sp p2 os).
+  forall os p1 p2, alike sp p1 p2 -> fst (grun fp sp p1 os) = fst (grun fp sp p2 os).
 Proof.
-  intros fp sp H os; induction os as [|o os IH]; intros p1 p2; cbn [grun]; [reflexivity|].
-  pose proof (gstep_obs_independent fp sp H o p1 p2) as E.
-  destruct (gstep fp sp p1 o) as [ob1 q1], (gstep fp sp p2 o) as [ob2 q2]; simpl in E; subst ob2.
-  specialize (IH q1 q2).
+  intros fp sp H; apply reinitialises_split in H; destruct H as [Hf _].
+  intros os; induction os as [|o os IH]; intros p1 p2 A; cbn [grun]; [reflexivity|].
+  destruct (gstep_alike fp sp Hf o p1 p2 A) as [E A'].
+  destruct (gstep fp sp p1 o) as [ob1 q1], (gstep fp sp p2 o) as [ob2 q2]; simpl in E, A'; subst ob2.
+  specialize (IH q1 q2 A').
   destruct (grun fp sp q1 os) as [obs1 z1], (grun fp sp q2 os) as [obs2 z2]; simpl in *; subst; reflexivity.
 Qed.
 
@@ -191,21 +228,42 @@ Proof.
     destruct (grun fp sp q pre) as [o1 q1]. destruct (grun fp sp q1 os) as [o2 q2]. reflexivity.
 Qed.
 
-(* C15, isolation over any history: after ANY earlier operations `pre` (compiles that succeeded or failed in any
-   scanner state, calls of any program on any VM, float arithmetic of the host), every compile and every call of
-   `os` gives what it gives in a fresh process *)
+Lemma grun_alike :
+  forall fp sp, fl_sub (tested fp) (cleared fp) = true ->
+  forall os p, alike sp p fresh_process -> alike sp (snd (grun fp sp p os)) fresh_process.
+Proof.
+  intros fp sp Hf os; induction os as [|o os IH]; intros p A; cbn [grun]; [exact A|].
+  assert (A' : alike sp (snd (gstep fp sp p o)) fresh_process).
+  { destruct A as [Ha|(He & N1 & N2)]; [left; assumption|].
+    right. split; [assumption|]. split; [|reflexivity].
+    destruct o as [src folds|ss|r]; cbn [gstep].
+    - rewrite N1. pose proof (compile_leaves_nothing_pending sp He src) as L.
+      destruct (compile_literals sp None src); simpl in *; assumption.
+    - destruct (run_steps fp (fpsw p) ss); simpl; assumption.
+    - simpl; assumption. }
+  destruct (gstep fp sp p o) as [ob q]; simpl in A'.
+  specialize (IH q A'). destruct (grun fp sp q os); simpl in *; assumption.
+Qed.
+
+(* C15, isolation over any history: in a process that started fresh, after ANY earlier operations `pre` (compiles that
+   succeeded or failed in any scanner state, calls of any program on any VM, float arithmetic of the host), every compile
+   and every call of `os` gives what it gives in a fresh process *)
 Theorem process_history_as_in_fresh_process :
   forall fp sp, reinitialises fp sp = true ->
-  forall pre os p,
-    fst (grun fp sp p (pre ++ os)) = fst (grun fp sp p pre) ++ fst (grun fp sp fresh_process os).
+  forall pre os,
+    fst (grun fp sp fresh_process (pre ++ os)) = fst (grun fp sp fresh_process pre) ++ fst (grun fp sp fresh_process os).
 Proof.
-  intros fp sp H pre os p. rewrite grun_app.
-  destruct (grun fp sp p pre) as [o1 q1].
-  pose proof (process_history_independent fp sp H os q1 fresh_process) as E.
+  intros fp sp H pre os. rewrite grun_app.
+  pose proof (reinitialises_split fp sp H) as [Hf Hs].
+  assert (A0 : alike sp fresh_process fresh_process).
+  { destruct Hs; [left; assumption | right; auto]. }
+  pose proof (grun_alike fp sp Hf pre fresh_process A0) as A.
+  destruct (grun fp sp fresh_process pre) as [o1 q1]; simpl in A.
+  pose proof (process_history_independent fp sp H os q1 fresh_process A) as E.
   destruct (grun fp sp q1 os) as [o2 q2]; simpl in *. rewrite E. reflexivity.
 Qed.
 
-(* ... and the hypothesis cannot be weakened: a policy that does not re-initialise admits a history whose last
+(* ... and the hypothesis cannot be weakened: a policy that does not re-initialise allows a history whose last
    operation is observably different from the same operation in a fresh process *)
 Theorem process_reinit_necessary :
   forall fp sp, reinitialises fp sp = false ->
@@ -221,12 +279,16 @@ Proof.
     destruct (run_steps fp fl_none [Builtin fl_none]) as [b2 q2].
     cbn [fst app] in *. intro C. apply N. injection C as C. exact C.
   - exists [GCompile [Quote; Ch 1] []], (GCompile [Quote; Quote] []).
-    destruct sp as [a]; simpl in H; subst a. vm_compute. discriminate.
+    apply orb_false_iff in H. destruct H as [Ha He].
+    destruct sp as [a e]; simpl in Ha, He; subst a e. vm_compute. discriminate.
 Qed.
 
-Example pinned_policies_reinitialise : reinitialises pinned_fp pinned_scan = true.
-Proof. reflexivity. Qed.
-Example narrowed_mask_does_not : reinitialises narrowed_fp pinned_scan = false.
+Example pinned_policies_reinitialise : reinitialises pinned_fp pinned_scan = true /\ reinitialises pinned_fp current_scan = true.
+Proof. split; reflexivity. Qed.
+Example narrowed_mask_does_not : reinitialises narrowed_fp current_scan = false.
 Proof. reflexivity. Qed.
 Example guarded_allocation_does_not : reinitialises pinned_fp guarded_scan = false.
+Proof. reflexivity. Qed.
+(* ... but the same guard is harmless once the end of the input frees the buffer (the tree since a3bcc72) *)
+Example guarded_allocation_harmless_with_eof_rule : reinitialises pinned_fp guarded_eof_scan = true.
 Proof. reflexivity. Qed.
